@@ -414,11 +414,11 @@ class OggPage(object):
             page.sequence = seq
             page.serial = old_pages[0].serial
 
+        # The first flag can only be set on the first old page and the last
+        # flag only on the last one; they stay with the first/last new page.
         new_pages[0].first = old_pages[0].first
-        new_pages[0].last = old_pages[0].last
         new_pages[0].continued = old_pages[0].continued
 
-        new_pages[-1].first = old_pages[-1].first
         new_pages[-1].last = old_pages[-1].last
         new_pages[-1].complete = old_pages[-1].complete
         if not new_pages[-1].complete and len(new_pages[-1].packets) == 1:
